@@ -196,10 +196,21 @@ class Model():
 
         asset.associations = []
 
+        generated_name = None
         if not hasattr(asset, 'name'):
-            asset.name = asset.type + ':' + str(asset.id)
+            generated_name = asset.type + ':' + str(asset.id)
         elif asset.name in self.asset_names:
-            asset.name = asset.name + ':' + str(asset.id)
+            generated_name = asset.name + ':' + str(asset.id)
+
+        if generated_name is not None:
+            # The generated name may itself be taken (e.g. by an asset that
+            # was explicitly named 'Type:1'), extend it until it is unique
+            unique_name = generated_name
+            counter = 1
+            while unique_name in self.asset_names:
+                unique_name = generated_name + ':' + str(counter)
+                counter += 1
+            asset.name = unique_name
         self.asset_names.add(asset.name)
 
         # Optional field for extra asset data
